@@ -385,3 +385,154 @@ def snap(v):
   if pg.MISSING_VALUE == v:
     return MISSING_SNAP
   return v
+
+
+# -- Part 3: annotated signatures whose annotations are unions ---------------------
+#
+# An annotation is (source text, member types in the order written, class).  With
+# typing derived from annotations (auto_typing=True) every member type is
+# accepted by the library as it is, so a value whose exact type is one of the
+# members must reach the callable unchanged - whatever the order of the members.
+# Values of other types are not generated (plain Python does not check them,
+# the library does, or converts them as documented for a plain `float`).
+
+UNION_ANNOTATIONS = [
+    ('Union[float, int]', (float, int), 'union'),
+    ('Union[int, float]', (int, float), 'union'),
+    ('Union[float, int]', (float, int), 'union'),
+    ('Union[int, float]', (int, float), 'union'),
+    ('float | int', (float, int), 'union'),
+    ('int | float', (int, float), 'union'),
+    ('Union[int, str]', (int, str), 'union'),
+    ('Union[str, int]', (str, int), 'union'),
+    ('Union[float, str]', (float, str), 'union'),
+    ('Union[str, float, int]', (str, float, int), 'union'),
+    ('Union[bool, int]', (bool, int), 'union'),
+    ('Union[int, bool]', (int, bool), 'union'),
+    ('Union[float, bool]', (float, bool), 'union'),
+    ('Union[bool, str]', (bool, str), 'union'),
+    ('Union[Union[float, str], int]', (float, str, int), 'union'),
+    ('Optional[int]', (int, None), 'optional'),
+    ('Optional[float]', (float, None), 'optional'),
+    ('Optional[str]', (str, None), 'optional'),
+    ('Optional[Union[float, int]]', (float, int, None), 'optional-union'),
+    ('Optional[Union[int, float]]', (int, float, None), 'optional-union'),
+    ('Union[int, None]', (int, None), 'optional'),
+    ('Union[None, float, int]', (float, int, None), 'optional-union'),
+    ('Union[float, str, None]', (float, str, None), 'optional-union'),
+    ('float | int | None', (float, int, None), 'optional-union'),
+    ('List[Union[float, int]]', ([float, int],), 'container-of-union'),
+    ('List[Union[int, float]]', ([int, float],), 'container-of-union'),
+    ('int', (int,), 'plain'),
+    ('float', (float,), 'plain'),
+    ('str', (str,), 'plain'),
+    ('Any', (int, float, str, bool, None), 'plain'),
+    (None, (int, float, str, bool, None), 'plain'),
+]
+UNION_NAMESPACE = {}
+exec('from typing import Any, Dict, List, Optional, Tuple, Union', UNION_NAMESPACE)  # pylint: disable=exec-used
+ANNOTATION_CLASS = {a[0]: a[2] for a in UNION_ANNOTATIONS}
+ANNOTATION_MEMBERS = {a[0]: a[1] for a in UNION_ANNOTATIONS}
+EXTRA_NAMES = ['zz', 'yy', 'alpha', 'Beta', 'm2', 'x10', 'x9']
+
+_EARLY = {int: [1, 2, 3, 4, 5, 6, 8, 9], float: [0.5, 2.0, 3.0, 7.5], str: ['s', 't', ''],
+          bool: [True, False], None: [None]}
+_LATE = {int: [11, 12, 13, 14, 15, 16, 17, 18, 19], float: [11.5, 12.0, 13.0, 17.25],
+         str: ['fresh', 'late']}
+
+
+def union_value(rng, annot, late=False):
+  """A value whose exact type is a member of the annotation.  `late` values are
+  different from (!=) every early value and every default."""
+  members = ANNOTATION_MEMBERS[annot]
+  m = rng.choice(members)
+  if isinstance(m, list):
+    pool = [x for x in m if not late or x in _LATE]
+    return [union_value_of(rng, rng.choice(pool), late) for _ in range(rng.randint(0 if not late else 1, 3))]
+  if late and m not in _LATE:
+    m = rng.choice([x for x in members if x in _LATE])
+  return union_value_of(rng, m, late)
+
+
+def union_value_of(rng, member, late=False):
+  return rng.choice((_LATE if late else _EARLY)[member])
+
+
+def union_default(rng, annot, i):
+  """A default of a member type (ints 10*(i+1) as in the plain generator)."""
+  members = ANNOTATION_MEMBERS[annot]
+  m = rng.choice(members)
+  if isinstance(m, list):
+    return [union_default_of(rng.choice(m), i), union_default_of(rng.choice(m), i + 1)]
+  return union_default_of(m, i)
+
+
+def union_default_of(member, i):
+  if member is int:
+    return 10 * (i + 1)
+  if member is float:
+    return 10.0 * (i + 1) if i % 2 else 10 * (i + 1) + 0.5
+  if member is str:
+    return 'dflt'
+  if member is bool:
+    return i % 2 == 0
+  return None
+
+
+def annotate_signature(rng, sig):
+  """`sig` (any shape made by signatures.make_signature) with every parameter,
+  *args and **kwargs annotated from UNION_ANNOTATIONS and defaults of a member
+  type.  A parameter whose annotation admits None always has a default (whether
+  `Optional[...]` implies one is left open)."""
+  def pick(need_default_free):
+    while True:
+      a = rng.choice(UNION_ANNOTATIONS)
+      if need_default_free and None in a[1] and a[0] not in (None, 'Any'):
+        continue
+      return a[0]
+  def params(ps, offset=0):
+    out = []
+    for i, (name, has_default, _, _) in enumerate(ps):
+      annot = pick(not has_default)
+      out.append((name, has_default, union_default(rng, annot, i + offset) if has_default else None,
+                  annot))
+    return out
+  star = lambda: rng.choice([a[0] for a in UNION_ANNOTATIONS if a[2] in ('union', 'plain')])
+  return {'pos': params(sig['pos']), 'varargs': sig['varargs'],
+          'kwonly': params(sig['kwonly'], 9), 'varkw': sig['varkw'], 'typed': True,
+          'varargs_annot': star() if sig['varargs'] else None,
+          'varkw_annot': star() if sig['varkw'] else None}
+
+
+def render_annotated_params(sig):
+  """Parameter list of an annotated signature (also `*args: T`, `**kw: T`)."""
+  def one(p):
+    name, has_default, default, annot = p
+    s = name + (f': {annot}' if annot else '')
+    if has_default:
+      s += (' = ' if annot else '=') + repr(default)
+    return s
+  def star(prefix, name, annot):
+    return prefix + name + (f': {annot}' if annot else '')
+  parts = [one(p) for p in sig['pos']]
+  if sig['varargs']:
+    parts.append(star('*', sig['varargs'], sig.get('varargs_annot')))
+  elif sig['kwonly']:
+    parts.append('*')
+  parts += [one(p) for p in sig['kwonly']]
+  if sig['varkw']:
+    parts.append(star('**', sig['varkw'], sig.get('varkw_annot')))
+  return ', '.join(parts)
+
+
+def annotation_of(sig, name=None, position=None):
+  """Annotation that governs a keyword `name` / the positional value number
+  `position` ('' = the value cannot be bound: any value will do)."""
+  if position is not None:
+    if position < len(sig['pos']):
+      return sig['pos'][position][3]
+    return sig.get('varargs_annot') if sig['varargs'] else ''
+  for p in sig['pos'] + sig['kwonly']:
+    if p[0] == name:
+      return p[3]
+  return sig.get('varkw_annot') if sig['varkw'] else ''
